@@ -1,5 +1,5 @@
 (* C06 — unsupported operators fail loudly iff reached; type mismatch never errors. *)
-From Rules Require Import Spec Eval Refinement SemProps OpsProps Theorems UndecidedProofs SourceProofs.
+From Rules Require Import Spec Eval Refinement SemProps OpsProps Theorems UndecidedProofs SourceC06.
 From Coq Require Import String.
 
 (* ErrInvalidOperation exactly for the table of the statement, whatever the operands *)
